@@ -126,6 +126,7 @@ def real_soak(tier):
         ("stdin", "cat", {"in_stream": "abc"}, "Result"),
     ]
     fails, evals = [], 0
+    hangs = 0
     time.sleep(0.05)
     base_threads = threading.active_count()
     base_fds = rc.fd_count()
@@ -135,6 +136,8 @@ def real_soak(tier):
                 continue            # F-C08a, run in a sandbox below
             for asyn in (False, True):
                 for _ in range(reps if not asyn else max(1, reps // 3)):
+                    if hangs >= 3:
+                        break               # a hang costs its whole bound: three are evidence enough
                     evals += 1
                     k = dict(kw, hide=True, pty=pty)
                     if k.get("in_stream") == "abc":
@@ -148,11 +151,12 @@ def real_soak(tier):
                         cmd_ = cmd
                     if asyn:
                         k["asynchronous"] = True
-                    r = rc.run_real(cmd_, bound=20.0, **k)
+                    r = rc.run_real(cmd_, bound=12.0, **k)
                     case = {"class": name, "pty": pty, "async": asyn}
                     if r["hang"]:
-                        fails.append({"case": case, "what": "did not end within 20 s"})
-                        continue
+                        hangs += 1
+                        fails.append({"case": case, "what": "did not end within 12 s"})
+                        break
                     if r["outcome"] != want:
                         fails.append({"case": case, "what": "outcome %s, expected %s" % (r["outcome"], want)})
                     if r["timer_alive"]:
@@ -319,7 +323,7 @@ def termios_check(tier):
             os.execv(sys.executable, [sys.executable, "-c", TERMIOS % (core.REPO, path)])
         finally:
             os._exit(97)
-    deadline = time.time() + 40
+    deadline = time.time() + 25
     status = None
     while time.time() < deadline:
         try:
@@ -337,7 +341,7 @@ def termios_check(tier):
             os.waitpid(pid, 0)
         except OSError:
             pass
-        fails.append({"case": {"controlling_pty": True}, "what": "helper did not finish within 40 s"})
+        fails.append({"case": {"controlling_pty": True}, "what": "helper did not finish within 25 s"})
     os.close(master)
     res = {}
     try:
